@@ -321,7 +321,12 @@ void run_relay_world(const Plan& p, Ctx& ctx, bool c26) {
             std::string line = "CONNECT " + id_spelt(self, op.at(5)) + " " + id_spelt(target, op.at(4)) + "\n";
             if (send_bytes(i, text(line), static_cast<int>(op.at(3)))) {
                 ++c.connects;
-                sk::sleep_ns(20 * kMs + p.knob("lat_max_us", 300) * 4000);
+                // The relay answers a CONNECT line with OK or ERROR. Whether this client became a connector (whose next bytes are
+                // its identity) is read from that answer, however long tiny buffers and short writes delay it - not guessed from
+                // a fixed pause.
+                const std::size_t lines_before = c.io ? parse_stream(*c.io).lines.size() : 0;
+                sk::wait_until([&] { if (!c.io) return true; if (c.io->eof_at >= 0 || c.io->reset) return true; const Parsed ps = parse_stream(*c.io); return ps.lines.size() > lines_before; }, 30 * kSec);
+                sk::sleep_ns(2 * kMs);
                 if (c.role == 0 && has_line(i, "OK")) { c.role = 2; c.reg_id = self; c.target_id = target; ctx.probe("connect_ok"); }
             }
         } else if (op.k == "identity") {
@@ -361,7 +366,8 @@ void run_relay_world(const Plan& p, Ctx& ctx, bool c26) {
             switch (op.at(1)) {
                 case 0: g = text("REGISTER zz-not-hex\n"); break;
                 case 1: g = text("CONNECT onlyone\n"); break;
-                case 2: g = std::vector<std::uint8_t>(70000, 'A'); g.push_back('\n'); break;
+                // an over-long line; through socket buffers of at most 64 bytes every byte costs several scheduling steps, so it is kept shorter there
+                case 2: g = std::vector<std::uint8_t>(p.knob("buf_max", 4096) <= 64 ? 9000 : 70000, 'A'); g.push_back('\n'); break;
                 case 3: g = {0x00, 0x01, 0x02, '\n', 0x00, 0x7f, '\r', '\n'}; break;
                 case 4: g = text("REGISTER " + id_hex(1).substr(0, 63) + "\n"); break;
                 case 5: g = text("\n\n\r\n   \nUNKNOWN command here\n"); break;
@@ -375,7 +381,13 @@ void run_relay_world(const Plan& p, Ctx& ctx, bool c26) {
             const bool bridged = (c.role == 1 && has_line(i, "BEGIN")) || (c.role == 2 && c.identity_done_at >= 0);
             c.actor.call([&] {
                 if (op.at(1)) ::shutdown(c.fd, SHUT_WR);
-                else { ::shutdown(c.fd, SHUT_RDWR); ::close(c.fd); }
+                else {
+                    ::shutdown(c.fd, SHUT_RDWR); ::close(c.fd);
+                    // Descriptor numbers are handed out lowest-free across the whole simulation: a reader fiber of this connection
+                    // that has not had its turn yet would issue its first recv on a number the next socket() - of any client - may
+                    // already own, and steal that connection's bytes. Real processes have separate tables; wait for the reader here.
+                    if (auto io = c.io) sk::wait_until([io] { return io->eof_at >= 0; }, 5 * kSec);
+                }
             });
             if (op.at(1)) { ctx.probe("half_close"); c.closed_by_us = true; c.closed_at = sk::now_ns(); if (bridged) closes.push_back({c.tag, sk::now_ns()}); continue; }
             c.closed_by_us = true; c.closed_at = sk::now_ns();
